@@ -26,6 +26,10 @@ def vkey(v):
 
 VALUE_TAG = {vkey(v): 10 + k for k, v in enumerate(VALUES)}
 
+# file extension of the model files of a metamodel label (label 0: the metamodel whose load is observed;
+# other labels: metamodels registered as languages for their extension) — one character, see file_of_model
+EXT = {0: "m", 1: "x", 2: "y", 3: "z"}
+
 
 class Run:
     """One load of one case.  `script[(rule, uid)]` = ["v", k] | ["s"] | ["f", attr] | ["raise", spec];
@@ -57,6 +61,17 @@ class Run:
         self.tmp = None
         self.mm = None
         self.raise_hook = None  # C33: callable(spec, site) -> exception to raise
+        # histories (C13): several metamodels built with the same user classes, earlier loads
+        self.mms = {}  # label -> metamodel; `self.mm` is the one whose load is observed
+        self.user = None  # the recording user classes, shared by the metamodels of a history
+        self.pcalls = {}  # scope-provider calls per reference of the current load (postponement schedule)
+        self.phase = "observe"  # "history": processors return nothing, nothing recorded is kept
+        self.fail_refs = False  # history load that fails in reference resolution
+        self.fail_proc = False  # history load that fails in the first object processor
+        self.gdir = None  # directory of the grammar files (grammar spread over files)
+        # file number -> label of the metamodel the file belongs to (imported files of another language)
+        self.owner = {int(k): lab for k, lab in (case.get("mmfile") or {}).items()}
+        self.registered = False
 
     # -- canonical numbering ------------------------------------------------
     def cidx(self, name):
@@ -208,30 +223,86 @@ class Run:
 
         return type(name, (), {"__new__": __new__, "__init__": __init__})
 
-    def build(self):
-        from textx import metamodel_from_str
+    def user_names(self):
+        """rules with a user class (of a grammar spread over files: only rules of files that are loaded)."""
+        gs = self.case.get("gsplit")
+        if not gs:
+            return list(self.schema["user"])
+        loaded = pg.loaded_rules(self.schema, gs["levels"])
+        return [n for n in self.schema["user"] if n in loaded]
 
-        classes = [self.user_class(n) for n in self.schema["user"]]
-        self.mm = metamodel_from_str(self.r.grammar, classes=classes, **self.schema["opts"])
+    def new_metamodel(self, label=0, shared=True):
+        """one more metamodel of the case's grammar; `shared`: built with the same user classes as
+        the others (every build re-initialises the `_tx_*` class attributes of a user class)."""
+        from textx import metamodel_from_file, metamodel_from_str
+
+        if self.user is None:
+            self.user = [self.user_class(n) for n in self.user_names()]
+        classes = list(self.user) if shared else [self.user_class(n) for n in self.user_names()]
+        opts = dict(self.schema["opts"])
+        if self.case.get("grepo"):
+            opts["global_repository"] = True
+        gs = self.case.get("gsplit")
+        if gs:
+            if self.gdir is None:
+                self.gdir = tempfile.mkdtemp(prefix="txprocg_")
+                for i, t in enumerate(pg.grammar_files(self.schema, gs["levels"])):
+                    with open(os.path.join(self.gdir, f"g{i}.tx"), "w") as fh:
+                        fh.write(t)
+            mm = metamodel_from_file(os.path.join(self.gdir, "g0.tx"), classes=classes, **opts)
+        else:
+            mm = metamodel_from_str(self.r.grammar, classes=classes, **opts)
+        self.mms[label] = mm
+        if label != 0 and label in self.owner.values():
+            from textx import register_language
+
+            self.registered = True
+            register_language(f"procgen-lang-{label}", pattern=f"*.{EXT[label]}", metamodel=mm)
+        return mm
+
+    def fname(self, k):
+        return f"f{k}.{EXT[self.owner.get(k, 0)]}"
+
+    def build(self):
+        self.mm = self.new_metamodel(0)
         return self.mm
 
-    def providers(self):
+    def class_of(self, name, mm=None):
+        """meta-class by simple name, in whichever grammar file it is defined."""
+        mm = mm or self.mm
+        for ns in mm.namespaces.values():
+            if name in ns:
+                return ns[name]
+        raise KeyError(name)
+
+    def begin_observation(self):
+        """forget everything recorded during the history; the next load is the observed one."""
+        self.events, self.created, self.inited = [], [], set()
+        self.pre, self.models, self.real, self.id2uid = {}, {}, {}, {}
+        self.pcalls, self.mcalls = {}, {}
+        self.fail_refs = self.fail_proc = False
+        self.phase = "observe"
+
+    def providers(self, mm=None):
         import textx.scoping.providers as sp
         from textx import get_model
         from textx.scoping import Postponed
 
+        mm = mm or self.mm
         multi = self.schema["root"] == "multi"
         base = sp.PlainNameImportURI() if multi else sp.PlainName()
         waits = {(k, off): w for (k, off, _s, _a, _t, w) in self.r.refs}
-        calls = {}
         run = self
 
         def provider(obj, attr, obj_ref):
+            if run.fail_refs:
+                return None
+            calls = run.pcalls
             k = run.file_of_model(get_model(obj))
             key = (k, obj_ref.position)
             c = calls.get(key, 0)
             calls[key] = c + 1
-            if run.use_waits and c < waits.get(key, 0):
+            if run.use_waits and run.phase == "observe" and c < waits.get(key, 0):
                 return Postponed()
             res = base(obj, attr, obj_ref)
             if res is not None and not isinstance(res, Postponed):
@@ -246,18 +317,29 @@ class Run:
                 if p.get("kind") == "ref":
                     provs[f"{r['name']}.{p['attr']}"] = provider
         if provs:
-            self.mm.register_scope_providers(provs)
+            mm.register_scope_providers(provs)
 
     def site_of_uid(self, uid):
         o = self.r.objs[uid]
         return {"file": o["file"], "start": o["start"], "end": o["end"]}
 
-    def obj_processor(self, rule):
+    def obj_processor(self, rule, label=0, replaced=False):
+        """recording processor registered with metamodel `label`; `replaced`: of a registration that
+        is replaced before the observed load.  A call on an object of a model that belongs to another
+        metamodel, or of a replaced registration, is recorded as an `alien` event."""
         run = self
 
         def proc(obj):
             from textx import get_model
 
+            if run.fail_proc:
+                raise RuntimeError("history: failing processor")
+            if run.phase != "observe":
+                return None
+            belongs = run.owner.get(run.file_of_model(get_model(obj)), 0)
+            if replaced or belongs != label:
+                run.events.append(["alien", "replaced" if replaced else f"mm{label}", rule, run.uid_of(obj)])
+                return None
             run.capture(get_model(obj))
             uid = run.uid_of(obj)
             models = run.all_models(obj)
@@ -296,36 +378,48 @@ class Run:
 
         return proc
 
-    def processors(self):
+    def processors(self, mm=None, reg=None, label=0, replaced=False):
         from textx import textxerror_wrap
 
+        mm = mm or self.mm
         procs = {}
-        for rule in self.reg:
-            procs[rule] = self.obj_processor(rule)
+        for rule in (self.reg if reg is None else reg):
+            procs[rule] = self.obj_processor(rule, label, replaced)
         for rule in self.match_reg:
             procs[rule] = self.match_processor(rule)
         for rule in self.wrapped:
             if rule in procs:
                 procs[rule] = textxerror_wrap(procs[rule])
-        self.mm.register_obj_processors(procs)
+        mm.register_obj_processors(procs)
 
     # -- load -------------------------------------------------------------------
-    def load(self, file_name_kw=None):
-        """returns the model or raises what textX raises."""
+    def load(self, file_name_kw=None, mm=None, main=0, broken=False):
+        """returns the model or raises what textX raises.  `main`: the file loaded as the main
+        model; `broken`: with a syntax error at its end."""
+        mm = mm or self.mm
+        if broken:
+            return mm.model_from_str(self.r.texts[main] + "\n\u00a7")
         if self.case.get("from_file"):
-            self.tmp = tempfile.mkdtemp(prefix="txproc_")
-            for k, t in enumerate(self.r.texts):
-                with open(os.path.join(self.tmp, f"f{k}.m"), "w", newline="") as fh:
-                    fh.write(t)
-            return self.mm.model_from_file(os.path.join(self.tmp, "f0.m"))
+            if self.tmp is None:
+                self.tmp = tempfile.mkdtemp(prefix="txproc_")
+                for k, t in enumerate(self.r.texts):
+                    with open(os.path.join(self.tmp, self.fname(k)), "w", newline="") as fh:
+                        fh.write(t)
+            return mm.model_from_file(os.path.join(self.tmp, self.fname(main)))
         if file_name_kw:
-            return self.mm.model_from_str(self.r.texts[0], file_name=file_name_kw)
-        return self.mm.model_from_str(self.r.texts[0])
+            return mm.model_from_str(self.r.texts[main], file_name=file_name_kw)
+        return mm.model_from_str(self.r.texts[main])
 
     def cleanup(self):
-        if self.tmp:
-            shutil.rmtree(self.tmp, ignore_errors=True)
-            self.tmp = None
+        for d in (self.tmp, self.gdir):
+            if d:
+                shutil.rmtree(d, ignore_errors=True)
+        self.tmp = self.gdir = None
+        if self.registered:
+            from textx import clear_language_registrations
+
+            clear_language_registrations()
+            self.registered = False
 
     def finish_events(self):
         """replace object references in events by uids (possible once the models are captured)."""
